@@ -245,6 +245,7 @@ fn e1(ctx: &Ctx, res: &mut PartResult, pb: usize, two_pushers: bool, two_consume
             let log = s.log.get();
             // does some push overlap a consume (in real time)?
             let mut pushes: Vec<(usize, usize)> = Vec::new();
+            let mut push_vals: Vec<u64> = Vec::new();
             let mut conses: Vec<(usize, usize, usize)> = Vec::new(); // (call, return, consume id)
             let mut open_p = std::collections::BTreeMap::new();
             let mut open_c = std::collections::BTreeMap::new();
@@ -254,7 +255,10 @@ fn e1(ctx: &Ctx, res: &mut PartResult, pb: usize, two_pushers: bool, two_consume
                     Ev::PushCall(v) => {
                         open_p.insert(*v, i);
                     }
-                    Ev::PushRet(v) => pushes.push((open_p[v], i)),
+                    Ev::PushRet(v) => {
+                        pushes.push((open_p[v], i));
+                        push_vals.push(*v as u64);
+                    }
                     Ev::ConsCall(id) => {
                         open_c.insert(*id, i);
                     }
@@ -271,10 +275,14 @@ fn e1(ctx: &Ctx, res: &mut PartResult, pb: usize, two_pushers: bool, two_consume
             let closures: std::collections::BTreeMap<usize, usize> = log.iter().enumerate().filter_map(|(i, e)| if let Ev::ConsClosure(id) = e { Some((*id, i)) } else { None }).collect();
             let overlap = pushes.iter().any(|(pc, pr)| conses.iter().any(|(cc, cr, id)| pc < cr && cc < pr && closures.get(id).map(|cl| pc < cl).unwrap_or(true)));
             let sig = |base: &str| if overlap { format!("drain-vs-unfinished-push:{}", base) } else { base.to_string() };
+            // the values of the pushes that can be caught unfinished by a drain (the recorded finding is about these only)
+            let late: Vec<u64> = pushes.iter().zip(&push_vals).filter(|((pc, pr), _)| conses.iter().any(|(cc, cr, id)| pc < cr && cc < pr && closures.get(id).map(|cl| pc < cl).unwrap_or(true))).map(|(_, v)| *v).collect();
             let mut seen = std::collections::BTreeSet::new();
             for v in &yielded {
                 if !(*v >= 1.0 && *v <= npush as f64 && v.fract() == 0.0) {
-                    return Verdict::Fail { sig: sig("drain-yields-value-not-pushed"), msg: format!("a drain yielded {} which was never pushed (log {:?})", v, log) };
+                    // recorded: the drain reads the slot an unfinished push has claimed and not yet written, i.e. 0.0
+                    let s = if v.to_bits() == 0 { sig("drain-yields-value-not-pushed") } else { "drain-yields-value-not-pushed".to_string() };
+                    return Verdict::Fail { sig: s, msg: format!("a drain yielded {} which was never pushed (log {:?})", v, log) };
                 }
                 if !seen.insert(v.to_bits()) {
                     return Verdict::Fail { sig: sig("drain-yields-duplicate"), msg: format!("value {} yielded twice (log {:?})", v, log) };
@@ -282,7 +290,10 @@ fn e1(ctx: &Ctx, res: &mut PartResult, pb: usize, two_pushers: bool, two_consume
             }
             // with more pushes than capacity the replacement branch decides what is retained: only "nothing invented, nothing twice"
             if npush as usize <= cap && seen.len() as u64 != npush {
-                return Verdict::Fail { sig: sig("pushed-value-never-yielded"), msg: format!("{} values pushed (capacity 4) but only {:?} ever yielded (log {:?})", npush, yielded, log) };
+                // recorded: only the value of a push caught unfinished by a drain can go missing
+                let missing_are_late = (1..=npush).filter(|v| !seen.contains(&(*v as f64).to_bits())).all(|v| late.contains(&v));
+                let s = if missing_are_late { sig("pushed-value-never-yielded") } else { "pushed-value-never-yielded".to_string() };
+                return Verdict::Fail { sig: s, msg: format!("{} values pushed (capacity 4) but only {:?} ever yielded (log {:?})", npush, yielded, log) };
             }
             for e in &log {
                 if let Ev::ConsRet(_, got, rate) = e {
